@@ -8,7 +8,7 @@
    name, arguments outside the grammar: the property is silent) or NotGrammar;
    [run_msgs p ms] = the panel reached from p by what the decoded messages mean. *)
 From RP Require Import Lib.Base Lib.Strings Model.Gfx Model.MsgIn Model.DecIn Spec.DenoteIn Spec.GrammarIn
-  Proofs.InBits Proofs.InDec Proofs.InDecMain Proofs.InSeq Proofs.InTotal Proofs.StringsProofs.
+  Proofs.InBits Proofs.InDec Proofs.InDecMain Proofs.InSeq Proofs.InGfx Proofs.InGfxSeq Proofs.InRound Proofs.InTotal Proofs.StringsProofs.
 
 (* one well-formed line of ANY kind except a graphics chunk (flow words, all command
    keywords with all alternative spellings, HWC# / HWCc# / HWCx# / HWCt# / HWCrawADCValues#
@@ -24,18 +24,42 @@ Theorem c02_dec_line_sound_partial :
 Proof. exact dec_line_wf. Qed.
 Print Assumptions c02_dec_line_sound_partial.
 
-(* MAIN THEOREM, _partial: graphics chunk lines excluded ([plain_line] = well-formed with panel
-   effects, or not of the grammar; the HWCg* transfer is C05's).  Sequences of any length,
-   well-formed and non-grammar lines interleaved in any way, any start panel: same panel,
-   effects in line order.  JSON lines: the field-level meaning of the JSON text is the
-   oracle's (encoding/json), i.e. partial in that respect too. *)
+(* one well-formed graphics chunk line: the decoder's graphics locals and the reader's
+   transfer tracker stay related ([R]), and the message delivered (if any) means exactly what
+   the reader does to the panel - for ANY earlier history (interrupted, out-of-order,
+   duplicated, mixed-target transfers) *)
+Theorem c02_chunk_line_sound :
+  forall json_state json_msgs nc_parse st x p l c,
+    in_read json_state json_msgs nc_parse l = Wf (LChunk c) -> R st x ->
+    exists st' ms, dec_line json_state json_msgs nc_parse st l = Ok (st', ms) /\
+                   R st' (snd (step_chunk p x c)) /\
+                   fst (step_chunk p x c) = apply_effs p (den_msgs ms).
+Proof. exact dec_line_chunk. Qed.
+Print Assumptions c02_chunk_line_sound.
+
+(* MAIN THEOREM.  Every sequence of lines each of which is well-formed (ANY keyword, any
+   alternative spelling, simple three-line and advanced graphics transfers in any order) or not
+   of the grammar at all, of any length, from any start panel: the decoded messages reach the
+   panel the reference reader reaches on the lines, effects in line order.
+   Named _partial only for what goes through encoding/json: the meaning of a JSON state / array
+   line and of the SetNetworkConfig argument is "the meaning of what the oracle returns"
+   (arguments json_state, json_msgs, nc_parse, universally quantified). *)
 Theorem c02_dec_in_sound_partial :
-  forall json_state json_msgs nc_parse ls p x,
-    forallb (plain_line json_state json_msgs nc_parse) ls = true ->
+  forall json_state json_msgs nc_parse ls p,
+    forallb (good_line json_state json_msgs nc_parse) ls = true ->
     exists ms, dec_in json_state json_msgs nc_parse ls = Ok ms /\
-               run_msgs p ms = fst (sem_in_lines json_state json_msgs nc_parse (p, x) ls).
-Proof. exact dec_in_sound_nogfx. Qed.
+               run_msgs p ms = fst (sem_in_lines json_state json_msgs nc_parse (p, None) ls).
+Proof. exact dec_in_sound. Qed.
 Print Assumptions c02_dec_in_sound_partial.
+
+(* JSON lines (partial by nature): a '{' line yields exactly one message holding exactly the
+   state encoding/json returns; a '[' line yields exactly the non-null messages it returns *)
+Theorem c02_dec_in_json_partial :
+  forall json_state json_msgs nc_parse st r,
+    dec_line json_state json_msgs nc_parse st (123 :: r) = Ok (st, [state_msg (json_state (123 :: r))]) /\
+    dec_line json_state json_msgs nc_parse st (91 :: r) = Ok (st, filter_some (json_msgs (91 :: r))).
+Proof. intros. split; [exact (dec_line_json_state _ _ _ _ _)|exact (dec_line_json_msgs _ _ _ _ _)]. Qed.
+Print Assumptions c02_dec_in_json_partial.
 
 (* FULL STRENGTH, all byte strings: a line whose keyword / key name is not part of the grammar
    is decoded into exactly one empty message - no state change, command or register write -
@@ -82,12 +106,13 @@ Open Scope Z_scope.
    without pair mode, colour with readability bit, id list, leading zero, one-argument
    brightness, an unknown line in between) satisfy the hypothesis, and the decoded messages. *)
 Definition c02_example_lines : list (list Z) :=
-  map Sexp.str ["HWC#1,2=292"; "HWCc#7=196"; "FooBar=1"; "HWCt#3=|||Title||a|b"; "PanelBrightness=04"; "Flag#007=5"].
+  map Sexp.str ["HWC#1,2=292"; "HWCc#7=196"; "FooBar=1"; "HWCt#3=|||Title||a|b"; "PanelBrightness=04"; "Flag#007=5";
+               "HWCg#5=0:QUFB"; "HWC#9=4"; "HWCg#5=1:Q0ND"; "HWCg#5=2:RERE"].
 Example c02_nonvacuous :
-  forallb (plain_line (fun _ => empty_state) (fun _ => []) (fun _ => None)) c02_example_lines = true /\
+  forallb (good_line (fun _ => empty_state) (fun _ => []) (fun _ => None)) c02_example_lines = true /\
   nongrammar (fun _ => empty_state) (fun _ => []) (fun _ => None) (Sexp.str "FooBar=1") = true /\
   exists ms, dec_in (fun _ => empty_state) (fun _ => []) (fun _ => None) c02_example_lines = Ok ms /\
-             List.length ms = 6%nat /\
+             List.length ms = 8%nat /\
              DenoteIn.sx_panel (run_msgs panel0 ms) =
              DenoteIn.sx_panel (fst (sem_in_lines (fun _ => empty_state) (fun _ => []) (fun _ => None) (panel0, None) c02_example_lines)).
 Proof. split; [vm_compute; reflexivity|]. split; [vm_compute; reflexivity|]. eexists. split; [vm_compute; reflexivity|]. split; vm_compute; reflexivity. Qed.
